@@ -62,6 +62,14 @@ def run_check(prop, tier, seed, replay=None, jobs=None, quiet=False):
             if replay:
                 cmd += ['--replay', os.path.abspath(replay)]
             todo.append((cfg, i, out, cmd))
+    if not replay and (tier == 'thorough' or os.environ.get('VT_WITH_TESTS')) and getattr(mod, 'WITH_REPO_TESTS', True):
+        # incidental workload: the repository's own tests under this property's monitors (vt/pytest_plugin.py)
+        repo = os.path.realpath(os.environ.get('VT_REPO', '/repo'))
+        out = os.path.join(work, 'shard-repo-tests.json')
+        cmd = ['env', 'VT_PROP=' + prop, 'VT_TIER=' + tier, 'VT_SEED=%d' % seed, 'VT_OUT=' + out,
+               PY, '-m', 'pytest', '-q', '--no-header', '-p', 'no:cacheprovider', '-p', 'vt.pytest_plugin',
+               '--timeout=900', '--continue-on-collection-errors', os.path.join(repo, 'test')]
+        todo.append(('repo-tests', 0, out, cmd))
     timeout = plan.get('timeout', 900)
     running, results, dead = [], [], []
     pending = list(todo)
@@ -69,7 +77,8 @@ def run_check(prop, tier, seed, replay=None, jobs=None, quiet=False):
         while pending and len(running) < jobs:
             cfg, i, out, cmd = pending.pop(0)
             log = open(out + '.log', 'w')
-            p = subprocess.Popen(cmd, cwd=VERIF, env=env, stdout=log, stderr=subprocess.STDOUT)
+            p = subprocess.Popen(cmd, cwd=(os.path.realpath(os.environ.get('VT_REPO', '/repo')) if cfg == 'repo-tests' else VERIF),
+                                 env=env, stdout=log, stderr=subprocess.STDOUT)
             running.append((cfg, i, out, p, time.time(), log))
         still = []
         for cfg, i, out, p, ts, log in running:
@@ -84,7 +93,7 @@ def run_check(prop, tier, seed, replay=None, jobs=None, quiet=False):
                     still.append((cfg, i, out, p, ts, log))
                 continue
             log.close()
-            if rc != 0 or not os.path.exists(out):
+            if (rc != 0 and cfg != 'repo-tests') or not os.path.exists(out):
                 tail = open(out + '.log').read()[-800:]
                 dead.append('%s/%d: exit %s: %s' % (cfg, i, rc, tail))
             else:
